@@ -87,3 +87,23 @@ def lib_program(k, k2, use):
             'pick': f'  lv.pick {k}, {k2}, main\n', 'wf': '  lv2.wf table_start, 5\n'}
     return f"  ;main\ntable_start:\n{entries}\ntable_end:\nmain:\n" + ''.join(body[u] for u in use) + \
         f"  lv.nops {k2}\n  lv.halt\n"
+
+
+def lib_program(k, k2, use):  # noqa: F811  (extends the definition above: program constants, rep iterator names)
+    entries = '\n'.join('  ;0' for _ in range(k))
+    body = {'const': '', 'iter_kk': '  rep(2, kk) lv.stub\n', 'stubs': '  lv.stubs\n', 'twice': '  lv2.twice LVC\n',
+            'grid': f'  lv2.grid {k2 + 1}\n', 'pick': f'  lv.pick {k}, {k2}, main\n', 'wf': '  lv2.wf table_start, 5\n'}
+    head = f"kk = {k + 4}\n" if 'const' in use else ''
+    return head + f"  ;main\ntable_start:\n{entries}\ntable_end:\nmain:\n" + ''.join(body[u] for u in use) + \
+        f"  lv.nops {k2}\n  lv.halt\n"
+
+
+OK.update({
+    's_const_k': (True, ["k = 5\nstl.startup\nstl.output '0'+k\nstl.loop\n"]),
+    's_rep_k': (True, ["stl.startup\nrep(3, k) stl.output 'a'+k\nstl.loop\n"]),
+    's_label_k': (True, ["stl.startup\n;k\nk:\nstl.loop\n"]),
+})
+FAIL.update({
+    'f_ns_divzero': (False, ["ns cfg {\n  STEP = 0\n  COUNT = 100 / .STEP\n}\n;0\n"]),
+    'f_stl_ns_divzero': (True, ["stl.startup\nns cfg {\n  STEP = 0\n  COUNT = 100 / .STEP\n}\nstl.loop\n"]),
+})
